@@ -1187,6 +1187,23 @@ func ConcPaths(fn *ssa.Function, cfg ConcCfg) (seqs []string, truncated bool) {
 						st.slices[x] = SliceFact{Base: f.Base, Key: f.Key, Lo: lo, Hi: hi}
 					}
 				}
+			case *ssa.Field:
+				// a field of a struct value: of the variable it was just loaded from, when that is evident
+				if len(st.fmem) > 0 || len(st.fvals) > 0 {
+					if st2, isS := types.Unalias(x.X.Type()).Underlying().(*types.Struct); isS && x.Field < st2.NumFields() {
+						if kv, isInt, fv := st.FieldOf(x.X, st2.Field(x.Field).Name()); isInt {
+							st = st.clone()
+							st.ints[x] = kv
+						} else if fv != nil {
+							ns := st.clone()
+							ns.alias[x] = fv
+							if n, ok := st.IsNil(fv); ok {
+								ns.nils[x] = n
+							}
+							st = ns
+						}
+					}
+				}
 			case *ssa.TypeAssert:
 				if !x.CommaOk {
 					if ok, known := st.assertOK(x); known && ok {
@@ -1404,6 +1421,13 @@ func ConcPaths(fn *ssa.Function, cfg ConcCfg) (seqs []string, truncated bool) {
 							}
 							drop := func(key string) bool {
 								if all {
+									// code we cannot see may change anything it can reach - not a local variable whose
+									// address never leaves its function
+									if i := strings.Index(key, "."); i > 0 && strings.HasPrefix(key, "alloc@") {
+										if a := allocByKey[key[:i]]; a != nil && !allocEscapes(a) {
+											return false
+										}
+									}
 									return true
 								}
 								k := key
@@ -1969,6 +1993,53 @@ func ConstTableInt(g *ssa.Global, k int64) (int64, bool) {
 	return 0, false
 }
 
+var (
+	allocByKey   = map[string]*ssa.Alloc{}
+	allocEscMemo = map[*ssa.Alloc]bool{}
+)
+
+// allocEscapes: the address of the local variable is handed to something (stored, passed, captured, returned) - as
+// opposed to the variable only being assigned, read, and having its fields assigned and read in its own function.
+func allocEscapes(a *ssa.Alloc) bool {
+	if r, ok := allocEscMemo[a]; ok {
+		return r
+	}
+	var addrOnlyDeref func(v ssa.Value, d int) bool
+	addrOnlyDeref = func(v ssa.Value, d int) bool {
+		refs := v.Referrers()
+		if refs == nil || d > 6 {
+			return false
+		}
+		for _, r := range *refs {
+			switch x := r.(type) {
+			case *ssa.Store:
+				if x.Addr != v {
+					return false // the address itself is stored somewhere
+				}
+			case *ssa.UnOp:
+				if x.Op != token.MUL {
+					return false
+				}
+			case *ssa.FieldAddr:
+				if !addrOnlyDeref(x, d+1) {
+					return false
+				}
+			case *ssa.IndexAddr:
+				if x.X != v || !addrOnlyDeref(x, d+1) {
+					return false
+				}
+			case *ssa.DebugRef:
+			default:
+				return false
+			}
+		}
+		return true
+	}
+	esc := a.Heap || !addrOnlyDeref(a, 0)
+	allocEscMemo[a] = esc
+	return esc
+}
+
 // addrKey names the memory location addr denotes on this path: the object it is rooted in (an allocation, a
 // parameter, a global - registers are resolved through what they stand for on the path) plus the field path.
 func addrKey(st *ConcState, addr ssa.Value) string {
@@ -2000,6 +2071,7 @@ func addrKey(st *ConcState, addr ssa.Value) string {
 	switch x := v.(type) {
 	case *ssa.Alloc:
 		base = fmt.Sprintf("alloc@%p", x)
+		allocByKey[base] = x
 	case *ssa.Global:
 		base = "global " + x.String()
 	default:
